@@ -98,6 +98,7 @@ SUITES.update({
     "TYPES-LOOKUP": types_suite("lookup", 0, 0, "all case variants of the seven names, one-edit neighbours over letters and look-alikes, padded / doubled names, 25 other PURL type names"),
     "TYPES-STR": types_suite("typestr", 3, 4, "every type string over {g B T 1 . + - ! , e-acute} up to length L, built with String, Cow::Borrowed, Cow::Owned, SmallString"),
     "TYPES-COMB": types_suite("combined", 4, 6, "every combined name over {a b / :} up to length L x seven types"),
+    "TYPES-COMBESC": types_suite("combesc", 4, 5, "every combined name over {@ % 2 F f 3 A : /} up to length L x seven types (escaped separators are ordinary characters)"),
 })
 
 SUITES.update({
@@ -138,10 +139,10 @@ SUITES.update({
 })
 
 def system_suite(shape):
-    return dict(module="MC_System", kind="simulate", spec="Spec", invariants=["SysValid", "SysStringParses", "SysRebuild", "Emit"],
+    return dict(module="MC_System", kind="simulate", spec="Spec", invariants=["SysValid", "SysSavedValid", "SysStringParses", "SysRebuild", "SysCompare", "Emit"],
                 quick=dict(SHAPE='"%s"' % shape, DEPTH=16), thorough=dict(SHAPE='"%s"' % shape, DEPTH=40),
-                simulate=dict(quick="num=60", thorough="num=400"),
-                describe="closed client sessions (PurlSystem): new / setters / build / into_builder / format / respell / parse chained to depth DEPTH "
+                simulate=dict(quick="num=300", thorough="num=3000"),
+                describe="closed client sessions (PurlSystem): new / new from a combined name / setters / build / into_builder / format / serialize / respell / parse / deserialize / save / swap / compare / combined_name chained to depth DEPTH "
                          "by TLC -simulate and replayed on live builder, PURL and string objects with the projection compared after every step")
 
 
@@ -199,11 +200,11 @@ PROPS = {
     "C13": dict(suites=["TYPES-STR", "PARSE-SEP", "PARSE-PATH", "SPELL", "BUILDER-G", "BUILDER-SIM-G", "FORMAT-1"], drivers=["garbage", "corpus", "builder-ops"]),
     "C14": dict(suites=["SHAPES"], drivers=[]),
     "C15": dict(suites=["TYPES-LOOKUP", "PARSE-TYPED", "FAULT", "PARSE-UPTYPE"], drivers=["type-strings"]),
-    "C16": dict(suites=["PARSE-SEP", "PARSE-PATH", "PARSE-QUAL", "PARSE-TYPED", "SPELL", "FAULT", "FORMAT-1", "FORMAT-2", "BUILDER-G", "BUILDER-T", "TYPES-LOOKUP"], drivers=["garbage", "corpus"]),
+    "C16": dict(suites=["PARSE-SEP", "PARSE-PATH", "PARSE-QUAL", "PARSE-TYPED", "SPELL", "FAULT", "FORMAT-1", "FORMAT-2", "BUILDER-G", "BUILDER-T", "TYPES-LOOKUP", "SYSTEM-G", "SYSTEM-T"], drivers=["garbage", "corpus"]),
     "C17": dict(suites=[], drivers=[], extra="c17",
                 assumptions=["feature sets are compile-time: the harness is compiled once per set; TLC supplies the common case stream and validates the zipped transcripts, it does not enumerate configurations"]),
-    "C18": dict(suites=["TYPES-COMB"], drivers=["combined", "corpus", "garbage"]),
-    "C19": dict(suites=["VALUES", "PARSE-QUAL", "PARSE-QUALS2", "PARSE-UPKEYS", "FORMAT-1", "QUAL", "BUILDER-G", "BUILDER-SEQ"], drivers=["pairs", "builder-ops"]),
+    "C18": dict(suites=["TYPES-COMB", "TYPES-COMBESC", "SYSTEM-T"], drivers=["combined", "corpus", "garbage"]),
+    "C19": dict(suites=["VALUES", "PARSE-QUAL", "PARSE-QUALS2", "PARSE-UPKEYS", "FORMAT-1", "QUAL", "BUILDER-G", "BUILDER-SEQ", "SYSTEM-G", "SYSTEM-T"], drivers=["pairs", "builder-ops"]),
 }
 
 ASSUMPTIONS_COMMON = [
